@@ -61,6 +61,10 @@ pub struct RecvCfg {
     pub big: bool,
     /// let some departing peers with an announced identity come back under it
     pub rejoin: bool,
+    /// a long history: every sender has 90..210 small messages (things a socket does "every n-th
+    /// message" or after a counter wraps only show then); with `cancel`, recv calls keep being
+    /// abandoned all the way through
+    pub long: bool,
 }
 
 pub struct RecvOut {
@@ -108,8 +112,8 @@ pub fn draw_plans(ctx: &mut Ctx, cfg: &RecvCfg) -> Vec<SenderPlan> {
             // present but empty = anonymous: a unique identity must be assigned
             _ => Some(vec![]),
         };
-        let nm = ctx.plan(cfg.max_msgs + 1) as usize;
-        let shapes: Vec<Vec<usize>> = (0..nm).map(|_| draw_shape(ctx, cfg.big)).collect();
+        let nm = if cfg.long { 90 + ctx.plan(121) as usize } else { ctx.plan(cfg.max_msgs + 1) as usize };
+        let shapes: Vec<Vec<usize>> = if cfg.long { (0..nm).map(|k| if k % 16 == 15 { draw_shape(ctx, false) } else { vec![(k * 7) % 23] }).collect() } else { (0..nm).map(|_| draw_shape(ctx, cfg.big)).collect() };
         let end = if cfg.faults { [End::Keep, End::Close, End::CutMid, End::Reset][ctx.plan(4) as usize] } else { [End::Keep, End::Close][ctx.plan(2) as usize] };
         plans.push(SenderPlan {
             stype,
@@ -174,9 +178,13 @@ pub fn expected_recv(kind: Kind, wire: &[Vec<u8>], identity: Option<&[u8]>) -> O
 }
 
 pub fn run(ctx: &mut Ctx, cfg: RecvCfg) -> RecvOut {
-    world::swarm(ctx, SwarmOpts { tiny_chunks: !cfg.big, allow_spurious: true, ..Default::default() });
+    world::swarm(ctx, SwarmOpts { tiny_chunks: !cfg.big && !cfg.long, allow_spurious: true, ..Default::default() });
     let plans = draw_plans(ctx, &cfg);
-    let cancel_budgets: Vec<u32> = if cfg.cancel { (0..24).map(|_| ctx.plan(6) as u32).collect() } else { vec![] };
+    let mut cancel_budgets: Vec<u32> = if cfg.cancel { (0..24).map(|_| ctx.plan(6) as u32).collect() } else { vec![] };
+    if cfg.cancel && cfg.long {
+        // abandoned calls all the way through the history (finitely many: the run must end)
+        cancel_budgets = (0..1500).map(|i| cancel_budgets[i % 24]).collect();
+    }
     let replies = matches!(cfg.kind, Kind::Router | Kind::Dealer) && ctx.plan_bool();
     let shared = Rc::new(RefCell::new(Shared::default()));
     {
